@@ -566,7 +566,12 @@ class ExprMixin:
         if isinstance(op, ast.Mod) and not real:
             if isinstance(b, int) and b > 0:
                 return za % zb
-            raise Unsupported("modulo by a non-constant")
+            # symbolic divisor: ZeroDivisionError on 0; SMT-LIB mod is non-negative (0 <= r < |b|), Python's result takes
+            # the sign of the divisor: for b < 0 it is r + b unless r == 0
+            self.may_raise(zb == 0, "ZeroDivisionError", node)
+            rpos = za % zb
+            rneg = za % (-zb)
+            return z3.If(zb > 0, rpos, z3.If(rneg == 0, z3.IntVal(0), rneg + zb))
         if isinstance(op, ast.Pow) and isinstance(b, int) and 0 <= b <= 4:
             r = z3.RealVal(1) if real else z3.IntVal(1)
             for _ in range(b):
